@@ -15,4 +15,6 @@ if not res["violations"]:
     print("no violation"); sys.exit(0)
 for v in res["violations"]:
     print(v["sig"])
-print(runner.write_replay(prop, case, res["violations"][0], minimise=True))
+want = os.environ.get("SIG")
+vs = [v for v in res["violations"] if not want or want in v["sig"]]
+print(runner.write_replay(prop, case, vs[0], minimise=True))
